@@ -197,6 +197,88 @@ def exhaustive(tier):
     for depth in (1, 2):
         for order in ("validator-first", "fields-first"):
             yield {"mode": "declared-order", "depth": depth, "order": order}
+    # required fields of every emptiable kind x the other options that speak about length or content x empty values (as
+    # given, after stripping, an empty container) x placement x route: a load / validate() that returns leaves none empty
+    for kind in ("str", "str-strip", "host", "url", "filename", "loglevel", "list", "typed-list", "dict", "typed-dict", "secure"):
+        for min_len in ((None, 0, 1) if kind in ("str", "str-strip") else (None,)):
+            for place in ("root", "nested", "list-item"):
+                for route in ("load_tree", "loads-json", "loads-yaml", "default+validate", "ctor"):
+                    yield {"mode": "required-empty", "kind": kind, "min_len": min_len, "place": place, "route": route}
+
+
+def _required_empty_case(case, R):
+    cc = sandbox._state["cc"]
+    kind, min_len, place, route = case["kind"], case["min_len"], case["place"], case["route"]
+    R.label("required-empty", "required-empty:" + kind)
+    R.nontrivial = True
+    kw = {} if min_len is None else {"min_len": min_len}
+    empties = {"str": [""], "str-strip": ["", "   ", "\n\t"], "host": [""], "url": [""], "filename": [""], "loglevel": [""], "list": [[]], "typed-list": [[]],
+               "dict": [{}], "typed-dict": [{}], "bytes": [""], "secure": [""]}[kind]
+
+    def make(default=None):
+        extra = {} if default is None else {"default": default}
+        return {"str": lambda: cc.StringField(required=True, **kw, **extra), "str-strip": lambda: cc.StringField(required=True, transform_strip=True, **kw, **extra),
+                "host": lambda: cc.HostnameField(required=True, **extra), "url": lambda: cc.UrlField(required=True, **extra), "filename": lambda: cc.FilenameField(required=True, **extra),
+                "loglevel": lambda: cc.LogLevelField(required=True, **extra), "list": lambda: cc.ListField(required=True, **extra),
+                "typed-list": lambda: cc.ListField(cc.IntField(), required=True, **extra), "dict": lambda: cc.DictField(required=True, **extra),
+                "typed-dict": lambda: cc.DictField(cc.StringField(), cc.IntField(), required=True, **extra), "bytes": lambda: cc.BytesField(required=True, **extra),
+                "secure": lambda: cc.SecureField(required=True, **extra)}[kind]()
+    for empty in empties:
+        schema = cc.Schema()
+        schema.other = cc.IntField(default=1)
+        try:
+            field = make(empty if route == "default+validate" else None)
+        except Exception:
+            continue  # (a default the field refuses outright cannot be declared)
+        if place == "root":
+            schema.f = field
+            tree = {"f": empty}
+            read = lambda cfg: cfg.f
+        elif place == "nested":
+            schema.a.b.f = field
+            tree = {"a": {"b": {"f": empty}}}
+            read = lambda cfg: cfg.a.b.f
+        else:
+            item = cc.Schema()
+            item.f = field
+            item.tag = cc.StringField(default="t")
+            schema.rows = cc.ListField(item)
+            tree = {"rows": [{"tag": "x", "f": empty}]}
+            read = lambda cfg: cfg.rows[0].f
+        with sandbox.CaseDir() as d:
+            try:
+                if route == "ctor":
+                    if place != "root":
+                        return
+                    cfg = schema(key_filename=os.path.join(d, "key"), f=empty)
+                    cfg.validate()
+                else:
+                    cfg = schema(key_filename=os.path.join(d, "key"))
+                    if route == "load_tree":
+                        cfg.load_tree(tree)
+                    elif route == "default+validate":
+                        if place == "list-item":
+                            cfg.rows = [{"tag": "x"}]
+                        cfg.validate()
+                    else:
+                        fmt = route.split("-")[1]
+                        cfg.loads(cc.ConfigFormat.get(fmt).dumps(cfg, tree), fmt)
+                returned = True
+            except Exception:
+                returned = False
+            if not returned:
+                R.label("required-empty:rejected")
+                continue
+            try:
+                held = read(cfg)
+            except Exception:
+                continue
+            blank = held is None or (hasattr(held, "__len__") and len(held) == 0)
+            R.check(not blank, "load-sound", "required-empty:%s:%s" % (kind, route),
+                    lambda: "%s(required=True%s) at %s: %s of the empty value %r returned and the field holds %r" % (
+                        kind, "" if min_len is None else ", min_len=%d" % min_len, place, route, empty, held))
+            errs = cfg.validate(collect_errors=True)
+            R.check(bool(errs) == blank, "collect", "required-empty:" + kind, lambda: "collecting mode reports %r for a required field holding %r" % (errs, held))
 
 
 def _declared_order_case(case, R):
@@ -337,6 +419,8 @@ def _reinsert_case(case, R):
 def run_case(case, R):
     if case.get("mode") == "reinsert":
         return _reinsert_case(case, R)
+    if case.get("mode") == "required-empty":
+        return _required_empty_case(case, R)
     if case.get("mode") == "declared-order":
         return _declared_order_case(case, R)
     cc = sandbox._state["cc"]
